@@ -428,7 +428,9 @@ class TensorDictBase(MutableMapping):
             default=None,
         )
         if items:
-            result.update(items)
+            # entries that only `other` has; the lock may already have been propagated from self
+            with result.unlock_() if result.is_locked else contextlib.nullcontext():
+                result.update(items)
         return result
 
     __rand__ = __and__
@@ -10150,7 +10152,9 @@ class TensorDictBase(MutableMapping):
             default=None,
         )
         if items:
-            result.update(items)
+            # entries that only `other` has; the lock may already have been propagated from self
+            with result.unlock_() if result.is_locked else contextlib.nullcontext():
+                result.update(items)
         return result
 
     @_maybe_broadcast_other("bitwise_and")
@@ -10203,7 +10207,9 @@ class TensorDictBase(MutableMapping):
             default=None,
         )
         if items:
-            result.update(items)
+            # entries that only `other` has; the lock may already have been propagated from self
+            with result.unlock_() if result.is_locked else contextlib.nullcontext():
+                result.update(items)
         return result
 
     @_maybe_broadcast_other("logical_and")
@@ -10256,7 +10262,9 @@ class TensorDictBase(MutableMapping):
             default=None,
         )
         if items:
-            result.update(items)
+            # entries that only `other` has; the lock may already have been propagated from self
+            with result.unlock_() if result.is_locked else contextlib.nullcontext():
+                result.update(items)
         return result
 
     @_maybe_broadcast_other("add")
@@ -10315,7 +10323,9 @@ class TensorDictBase(MutableMapping):
             default=None,
         )
         if items:
-            result.update(items)
+            # entries that only `other` has; the lock may already have been propagated from self
+            with result.unlock_() if result.is_locked else contextlib.nullcontext():
+                result.update(items)
         return result
 
     def add_(
@@ -10590,7 +10600,9 @@ class TensorDictBase(MutableMapping):
             default=None,
         )
         if items:
-            result.update(items)
+            # entries that only `other` has; the lock may already have been propagated from self
+            with result.unlock_() if result.is_locked else contextlib.nullcontext():
+                result.update(items)
         return result
 
     def sub_(
@@ -10683,7 +10695,9 @@ class TensorDictBase(MutableMapping):
             default=None,
         )
         if items:
-            result.update(items)
+            # entries that only `other` has; the lock may already have been propagated from self
+            with result.unlock_() if result.is_locked else contextlib.nullcontext():
+                result.update(items)
         return result
 
     def maximum_(self, other: TensorDictBase | torch.Tensor) -> T:
@@ -10750,7 +10764,9 @@ class TensorDictBase(MutableMapping):
             default=None,
         )
         if items:
-            result.update(items)
+            # entries that only `other` has; the lock may already have been propagated from self
+            with result.unlock_() if result.is_locked else contextlib.nullcontext():
+                result.update(items)
         return result
 
     def minimum_(self, other: TensorDictBase | torch.Tensor) -> T:
@@ -10817,7 +10833,9 @@ class TensorDictBase(MutableMapping):
             default=None,
         )
         if items:
-            result.update(items)
+            # entries that only `other` has; the lock may already have been propagated from self
+            with result.unlock_() if result.is_locked else contextlib.nullcontext():
+                result.update(items)
         return result
 
     def clamp_max_(self, other: TensorDictBase | torch.Tensor) -> T:
@@ -10900,7 +10918,9 @@ class TensorDictBase(MutableMapping):
             default=None,
         )
         if items:
-            result.update(items)
+            # entries that only `other` has; the lock may already have been propagated from self
+            with result.unlock_() if result.is_locked else contextlib.nullcontext():
+                result.update(items)
         return result
 
     def clamp_min_(self, other: TensorDictBase | torch.Tensor) -> T:
@@ -10984,7 +11004,9 @@ class TensorDictBase(MutableMapping):
             default=None,
         )
         if items:
-            result.update(items)
+            # entries that only `other` has; the lock may already have been propagated from self
+            with result.unlock_() if result.is_locked else contextlib.nullcontext():
+                result.update(items)
         return result
 
     @_maybe_broadcast_other("clamp", 2)
@@ -11121,7 +11143,9 @@ class TensorDictBase(MutableMapping):
             default=None,
         )
         if items:
-            result.update(items)
+            # entries that only `other` has; the lock may already have been propagated from self
+            with result.unlock_() if result.is_locked else contextlib.nullcontext():
+                result.update(items)
         return result
 
     def div_(self, other: TensorDictBase | torch.Tensor) -> T:
@@ -11194,7 +11218,9 @@ class TensorDictBase(MutableMapping):
             default=None,
         )
         if items:
-            result.update(items)
+            # entries that only `other` has; the lock may already have been propagated from self
+            with result.unlock_() if result.is_locked else contextlib.nullcontext():
+                result.update(items)
         return result
 
     def sqrt_(self):
